@@ -21,8 +21,8 @@ Proof. exact compute_ignorable_mid. Qed.
 Theorem C12_cache : forall l b c, coherent l c -> compute l b c = compute l b [].
 Proof. exact compute_coherent. Qed.
 
-(* every cache history over an unchanged directory (cold, warm, partial, from longer or shorter or
-   failed earlier runs, at any beacons) leaves a coherent cache, hence the cache-less result *)
+(* every cache history over an unchanged directory (cold, warm, partial, with holes, from longer or
+   shorter or failed earlier runs, Merkle trees at any beacons and digest lists of any ranges) leaves a coherent cache, hence the cache-less result *)
 Theorem C12_cache_history : forall l history b,
   unique_names l ->
   coherent l (run_history l history []) /\
@@ -30,6 +30,15 @@ Theorem C12_cache_history : forall l history b,
 Proof.
   intros l h b Hu. assert (Hc := run_history_coherent l h [] Hu (coherent_nil l)).
   split; [exact Hc|]. rewrite compute_cached_fst. apply compute_coherent. exact Hc.
+Qed.
+
+(* ... and the digest list served for any range of immutables after any such history is the
+   cache-less one: every file name is paired with the digest of its own content *)
+Theorem C12_range_history : forall l history lo hi,
+  unique_names l ->
+  fst (compute_range_cached l lo hi (run_history l history [])) = fst (compute_range_cached l lo hi []).
+Proof.
+  intros l h lo hi Hu. apply compute_range_coherent. apply run_history_coherent; [exact Hu | apply coherent_nil].
 Qed.
 
 (* cache-less, changing the content of a covered file changes the root *)
@@ -63,7 +72,7 @@ Example C12_ex :
   is_ok (compute ex_dir 1 []) = true /\ is_ok (compute ex_dir 2 []) = true /\ is_ok (compute ex_dir 3 []) = false /\
   contrib_of (ex_name "00001.primary", KFile 12) = CFile (1, ex_name "00001.primary", 12) /\
   ignorable 1 (ex_name "00002.chunk", KFile 21) /\ ignorable 1 (ex_name "README", KFile 99) /\
-  compute ex_dir 1 (run_history ex_dir [2; 5; 1] []) = compute ex_dir 1 [].
+  compute ex_dir 1 (run_history ex_dir [HBeacon 1; HRange 2 2; HBeacon 5; HBeacon 2] []) = compute ex_dir 1 [].
 Proof.
   repeat split; try (vm_compute; reflexivity).
   - right. eexists. split; [vm_compute; reflexivity | vm_compute; reflexivity].
